@@ -61,7 +61,7 @@ fn read_as(field: &Field, view: &marrow::view::View, req: Req) -> Out<String> {
 pub fn run(ctx: &mut Ctx) {
     ctx.runner = "RunC05".into();
     ctx.shard_size = 200;
-    ctx.rule = "exhaustive conversion matrix. Writing: ~100 serde values (every integer presentation of the boundary values min, min-1, min+1, max, max+1, max-1 of all eight widths; bool; chars incl. U+FFFF and U+10FFFF; floats incl. NaN / infinity / 1e300; strings; bytes; None / unit / Some / newtype; sequences, tuples, maps, structs; unit and newtype variants) x 34 column types x {non-nullable, nullable} at the top level, and again inside three nested carriers (struct field, list element, map value) for the integer columns; each cell preceded by one valid row, judged inside Coq by the C01 oracle (wf batch, decode = interp, refusal of values outside the documented mapping). Reading: every boundary value stored in each of the 8 integer column types and both Boolean values, read as i8..u64, bool, char, f32, f64, String; compared with conv_de (Ok exactly when representable, and then exactly the stored value). Non-trivial = all; distinct by (cell, result)".into();
+    ctx.rule = "exhaustive conversion matrix. Writing: ~100 serde values (every integer presentation of the boundary values min, min-1, min+1, max, max+1, max-1 of all eight widths; bool; chars incl. U+FFFF and U+10FFFF; floats incl. NaN / infinity / 1e300; strings; bytes; None / unit / Some / newtype; sequences, tuples, maps, structs; unit and newtype variants) x 34 column types x {non-nullable, nullable} at the top level, and again inside three nested carriers (struct field, list element, map value) for the integer columns; each cell preceded by one valid row, judged inside Coq by the C01 oracle (wf batch, decode = interp, refusal of values outside the documented mapping). Reading: every boundary value stored in each of the 8 integer column types and both Boolean values, read as i8..u64, bool, char, f32, f64, String; compared with conv_de (Ok exactly when representable, and then exactly the stored value). Non-trivial = all; distinct by (cell, result) Records that leave fields out: 2-3 fields x all nullability masks x every subset of present fields x schema / reversed / rotated order, as the top-level record, a struct column and a list element, between two complete records (missing required field = error, missing nullable field = null, nothing dropped or shifted).".into();
     // ---- writing
     let pool = value_pool();
     for dt in column_types() {
@@ -91,6 +91,35 @@ pub fn run(ctx: &mut Ctx) {
                     let from = ctx.cases.len();
                     ser_case(ctx, std::slice::from_ref(f), &[Val::Struct(vec![("c".into(), wrap(Val::Int(w, z)))], 0)], "nested_cell", None);
                     wrap_last(ctx, from);
+                }
+            }
+        }
+    }
+    // ---- records that leave fields out (struct path, fields in schema order, reversed, rotated): a missing
+    // required field is an error, a missing nullable field is a null, no value is dropped or shifted
+    for n in 2..=3usize {
+        for mask in 0..(1u32 << n) {
+            let names = ["a", "b", "d"];
+            let fs: Vec<Field> = (0..n).map(|i| mk(names[i], if i == 1 { DataType::Utf8 } else { DataType::Int32 }, mask & (1 << i) != 0)).collect();
+            let value = |i: usize, row: i128| if i == 1 { Val::Str(format!("s{}", row)) } else { Val::Int(IK::I32, 10 * row + i as i128) };
+            let full = |row: i128| Val::Struct((0..n).map(|i| (names[i].to_string(), value(i, row))).collect(), 0);
+            for present in 0..(1u32 << n) {
+                for order in 0..3usize {
+                    let mut idxs: Vec<usize> = (0..n).filter(|i| present & (1 << i) != 0).collect();
+                    match order { 1 => idxs.reverse(), 2 => if !idxs.is_empty() { idxs.rotate_left(1) }, _ => {} }
+                    if order > 0 && idxs.len() < 2 { continue; }
+                    let partial = Val::Struct(idxs.iter().map(|&i| (names[i].to_string(), value(i, 2))).collect(), 0);
+                    let from = ctx.cases.len();
+                    ser_case(ctx, &fs, &[full(1), partial.clone(), full(3)], "record_missing_fields_top", None);
+                    wrap_last(ctx, from);
+                    for carrier in 0..2 {
+                        let st = mk(if carrier == 0 { "c" } else { "element" }, DataType::Struct(fs.clone()), carrier == 1);
+                        let (f, rows) = if carrier == 0 { (st, vec![Val::Struct(vec![("c".into(), full(1))], 0), Val::Struct(vec![("c".into(), partial.clone())], 0), Val::Struct(vec![("c".into(), full(3))], 0)]) }
+                            else { (mk("c", DataType::List(Box::new(st)), false), vec![Val::Struct(vec![("c".into(), Val::Seq(vec![full(1), partial.clone(), full(3)]))], 0)]) };
+                        let from = ctx.cases.len();
+                        ser_case(ctx, std::slice::from_ref(&f), &rows, "record_missing_fields_nested", None);
+                        wrap_last(ctx, from);
+                    }
                 }
             }
         }
